@@ -40,8 +40,8 @@ def removedGood (api : EvalApi) (good : Expr → Prop) : List Stmt → Prop
       | .while_ c _ => keep api s = false → good c ∧ noAlloc c = true
       | _ => True) ∧ removedGood api good rest
 
-theorem while_removed_ok {api : EvalApi} {good : Expr → Prop} (hs : EvalSound api good)
-    {N : NumOps} (call : CallFn N) (ρ : ExtOracle N) (k : Nat) (env : Env N)
+theorem while_removed_ok {N : NumOps} {api : EvalApi} {good : Expr → Prop} (hs : EvalSound N api good)
+    (call : CallFn N) (ρ : ExtOracle N) (k : Nat) (env : Env N)
     (c : Expr) (body : Block) (hk : keep api (.while_ c body) = false) (hg : good c) (hna : noAlloc c = true)
     (σ σ' : State N) (ctl : Ctl N)
     (h : execS call ρ k env (.while_ c body) σ = .ok ctl σ') : ctl = .next env ∧ σ' = σ := by
@@ -68,8 +68,8 @@ theorem while_removed_ok {api : EvalApi} {good : Expr → Prop} (hs : EvalSound 
 
 /-- statement lists: every error-free run of the original list is a run of the filtered list,
 with the same control outcome and the same final state -/
-theorem execSs_filter_refines {api : EvalApi} {good : Expr → Prop} (hs : EvalSound api good)
-    {N : NumOps} (call : CallFn N) (ρ : ExtOracle N) (k : Nat)
+theorem execSs_filter_refines {N : NumOps} {api : EvalApi} {good : Expr → Prop} (hs : EvalSound N api good)
+    (call : CallFn N) (ρ : ExtOracle N) (k : Nat)
     (stmts : List Stmt) (hg : removedGood api good stmts) (env : Env N) (σ σ' : State N) (ctl : Ctl N)
     (h : execSs call ρ k env stmts σ = .ok ctl σ') :
     execSs call ρ k env (stmts.filter (keep api)) σ = .ok ctl σ' := by
@@ -104,8 +104,8 @@ theorem execSs_filter_refines {api : EvalApi} {good : Expr → Prop} (hs : EvalS
 
 /-- the block hook refines: every error-free run of the original block is a run of the
 rewritten block (same outcome, same state, same trace) -/
-theorem processBlock_refines {api : EvalApi} {good : Expr → Prop} (hs : EvalSound api good)
-    {N : NumOps} (call : CallFn N) (ρ : ExtOracle N) (k : Nat) (env : Env N)
+theorem processBlock_refines {N : NumOps} {api : EvalApi} {good : Expr → Prop} (hs : EvalSound N api good)
+    (call : CallFn N) (ρ : ExtOracle N) (k : Nat) (env : Env N)
     (stmts : List Stmt) (last : Option Last) (hg : removedGood api good stmts) (σ σ' : State N) (ctl : Ctl N)
     (h : execB call ρ k env (.mk stmts last) σ = .ok ctl σ') :
     execB call ρ k env (processBlock api (.mk stmts last) ()).1 σ = .ok ctl σ' := by
